@@ -3,6 +3,8 @@ ConnectionManager (C17, C18)."""
 from __future__ import annotations
 
 import asyncio
+
+import lib
 import heapq
 import logging
 
@@ -82,10 +84,10 @@ def run_scenario(script, close_at=None, threshold=5, sleep_sec=5, max_delay=60, 
     rec = Recorder(loop)
     state = {"k": 0}
 
-    class _DT(mc.datetime.datetime):
-        @classmethod
-        def utcnow(cls):
-            return mc.datetime.datetime(2020, 1, 1) + mc.datetime.timedelta(seconds=loop.time())
+    import datetime as _dt
+
+    def _now():
+        return _dt.datetime(2020, 1, 1) + _dt.timedelta(seconds=loop.time())
 
     async def factory():
         k = state["k"]
@@ -117,8 +119,8 @@ def run_scenario(script, close_at=None, threshold=5, sleep_sec=5, max_delay=60, 
     mgr.connection_lost_back_off_threshold = threshold
     mgr.connection_lost_back_off_sleep_sec = sleep_sec
     mgr.back_off_connect_error.max_delay = max_delay
-    old_dt = mc.datetime.datetime
-    mc.datetime.datetime = _DT
+    clock = lib.patched_clock(mc, _now)
+    clock.__enter__()
     closed = {"done": False}
 
     def do_close():
@@ -151,6 +153,6 @@ def run_scenario(script, close_at=None, threshold=5, sleep_sec=5, max_delay=60, 
             pass
         return result
     finally:
-        mc.datetime.datetime = old_dt
+        clock.__exit__()
         asyncio.set_event_loop(None)
         loop.close()
